@@ -199,6 +199,32 @@ RadixInplace(mem, base, fs) ==
     IN Mem(sub.Y, mem.Y, sub.Y \o sub.Z)
 
 (***************************************************************************)
+(* AVX mixed-radix stage Rxn (avx_mixed_radix.rs): column butterflies      *)
+(* across the r rows (with twiddles), the inner transform on every row of  *)
+(* m = len/r elements, a transpose.                                        *)
+(***************************************************************************)
+AvxRadixImmut(mem, r, m) ==
+    LET n  == r * m
+        z1 == [i \in 1..Len(mem.Z) |-> IF i <= n THEN Layer(mem.X, m, r)[i] ELSE mem.Z[i]]    \* column butterflies input -> Z[..n]
+        z2 == FftInPlace(z1, 1, n, m)                                                           \* row FFTs in place, workspace Z[n..]
+        z3 == Clobber(z2, n + 1, Len(z2), UnionOf(z1, 1, n))
+    IN Mem(mem.X, Permute(SubSeq(z3, 1, n), TransposePerm(m, r)), z3)
+
+AvxRadixInplace(mem, r, m) ==
+    LET n  == r * m
+        x1 == Layer(mem.X, m, r)                                                                \* column butterflies in place
+        z2 == [i \in 1..Len(mem.Z) |-> IF i <= n THEN FftInPlace(x1, 1, n, m)[i] ELSE mem.Z[i] \cup Readable(x1)]   \* rows out of place -> Z[..n]
+    IN Mem(Permute(SubSeq(z2, 1, n), TransposePerm(m, r)), mem.Y, z2)
+
+AvxRadixOop(mem, r, m) ==
+    LET n  == r * m
+        x1 == Layer(mem.X, m, r)
+        useZ == Len(mem.Z) > 0
+        x2 == FftInPlace(x1, 1, n, m)                                                           \* rows in place on the input; workspace Z, else the output
+        z2 == IF useZ THEN Clobber(mem.Z, 1, Len(mem.Z), Readable(x1)) ELSE mem.Z
+    IN Mem(x2, Permute(x2, TransposePerm(m, r)), z2)
+
+(***************************************************************************)
 (* The property.                                                           *)
 (***************************************************************************)
 \* every output element depends on every input element of its chunk and on nothing else
